@@ -9,7 +9,7 @@ from dataclasses import dataclass
 import math
 import typing as t
 
-from .util import flatten_union_args, is_broadcastable
+from .util import flatten_union_args, is_broadcastable, UNION_ORIGINS
 from .util import list_phrase, pluralize, remove_article
 
 if t.TYPE_CHECKING:
@@ -50,7 +50,7 @@ class Tagged(ConvertAnnotation):
 
         from .converters import TaggedUnionConverter
         origin = t.get_origin(inner_type)
-        if origin is not t.Union:
+        if origin not in UNION_ORIGINS:
             raise TypeError("'Tagged' must surround a 'Union' type.")
         types = tuple(flatten_union_args(t.get_args(inner_type)))
         return TaggedUnionConverter(types, tag=self.tag, external=self.external, handlers=handlers)
